@@ -44,7 +44,7 @@ def required_classes(tier):
         out += ["%s.eq:both-inf" % mk, "%s.eq:one-inf" % mk, "%s.eq:finite" % mk, "%s.double:identity" % mk]
     for p in PATHS:
         out.append("secp.jacobian_add:%s" % p)
-    out += ["secp.jacobian_double:identity", "secp.jacobian_double:finite", "secp:identity-result-fed-back", "secp.jacobian_add:equal-y", "opt.bn128.add:equal-y", "opt.bls12_381.add:equal-y"]
+    out += ["secp.jacobian_double:identity", "secp.jacobian_double:finite", "secp:identity-result-fed-back", "opt.bn128.linefunc:mixed-sparsity", "opt.bls12_381.linefunc:mixed-sparsity", "secp.jacobian_add:equal-y", "opt.bn128.add:equal-y", "opt.bls12_381.add:equal-y"]
     return out
 
 
@@ -112,6 +112,25 @@ def drive_module(rec, modkey, classes, F, rng, n, tag, b_lib=None):
             rec.case("%s.linefunc:%s" % (modkey, lp), (modkey, "line", F.p, P, Q, T))
             call(pm.linefunc, L(P), L(Q), L(T))
             call(pm.linefunc, L(P), L(Q), L(P))          # the line passes through P
+            if deg > 1 and j % 3 == 0:
+                # operands assembled COORDINATE BY COORDINATE from value pools: subfield constants, general elements, one non-constant coefficient
+                def coord(kind):
+                    if kind == 0:
+                        return (rng.randrange(1, F.p),) + (0,) * (deg - 1)
+                    if kind == 1:
+                        return F.rand(rng)
+                    t_ = [0] * deg
+                    t_[rng.randrange(1, deg)] = rng.randrange(1, F.p)
+                    t_[0] = rng.randrange(F.p)
+                    return tuple(t_)
+                for kinds in ((0, 0, 1), (0, 0, 2), (0, 1, 0), (1, 0, 0), (2, 2, 0), (0, 2, 1)):
+                    tr = tuple(CG.mk_el(classes[deg], coord(k_)) for k_ in kinds)
+                    rec.case("%s.linefunc:mixed-sparsity" % modkey, None, nontrivial=False)
+                    call(pm.linefunc, L(P), L(Q), tr)
+                    call(pm.linefunc, tr, L(Q), L(T))
+                    call(c.add, tr, L(Q))
+                    call(c.double, tr)
+                    call(c.eq, tr, tr)
         # curve membership: choose b so that P is on the curve, then perturb
         bP = F.sub(F.mul(P[1], P[1]), F.mul(F.mul(P[0], P[0]), P[0]))
         bl = CG.mk_el(classes[deg], bP)
